@@ -86,6 +86,29 @@ CLAIMED = {
              "one dependency word; N releases split over threads in a generated order and interleaving. Oracle: exactly one call reports "
              "ready iff all N releases were issued, and it is the last to commit; fewer than N never report ready. Both tracking modes.",
         design_ref="5/C07"),
+    "C12": dict(
+        engine="sim(E8)+rc",
+        technique="single-process simulation of n ranks around the real user_trigger module (send_am replaced by harness FIFO channels); exhaustive over (n<=64, root) + rapidcheck to n=4096",
+        text="Every (n <= 64, root) pair is run twice (all ranks ready / non-root ranks late, exercising the delayed-message path) and larger n up to "
+             "4096 with generated late sets, pending actions and delivery orders are sampled. Oracle: every rank's termination callback runs exactly "
+             "once, every non-root rank receives exactly one message, the root none, and the (sender, receiver) pairs form a spanning tree.",
+        design_ref="5/C12"),
+    "C13": dict(
+        engine="sim(E8)+rc+H4",
+        technique="simulation of np ranks around the real parsec_remote_dep_activate/propagate with hook H4 capturing sends; exhaustive over destination-set families for np<=5 x 3 topologies + rapidcheck",
+        text="The real activation/propagation code runs for a harness task with 1..3 outputs and generated destination sets; every captured send is "
+             "delivered by running the real propagation on the peer in a generated order. Oracle: each destination of each output receives that "
+             "output exactly once from a process that holds it, nobody else receives anything, nobody is activated twice. All roots x all families "
+             "of destination sets for np <= 5 on star/chain/binomial are enumerated; np <= 6 (thorough 8) sampled.",
+        design_ref="5/C13"),
+    "C11": dict(
+        engine="sim(E8)+rc+H5",
+        technique="simulation of P ranks around the real four-counter module with generated event/delivery histories; safety oracle at every termination callback, liveness at the drained fixpoint; call grammar validated against real MPI traces (hook H5)",
+        text="P in 1..5 (thorough 9) simulated ranks drive the real fourcounter termdet through the call protocol read from remote_dep_mpi.c "
+             "(ready, work +/-, application message start/deliver brackets, wave messages on FIFO channels in generated order). Safety: inside "
+             "every termination callback all ranks are idle and sent == received on every channel; liveness: after all work is completed and "
+             "channels drained every rank has had exactly one callback. Real dynamic-termdet runs on 2-3 MPI ranks validate the simulator's call grammar.",
+        design_ref="5/C11"),
     "C23": dict(
         engine="ptg(E5)+hypothesis",
         technique="generated parameter spaces; key distinctness and key_print round-trip oracle on the generated make_key/key_print",
